@@ -588,6 +588,18 @@ def strip_generics(path):
     return "".join(out)
 
 
+def callee_decl(c):
+    """declared path of the callee, generics stripped (for trait methods: Trait::method)"""
+    if c is None:
+        return ""
+    return strip_generics(c["decl"])
+
+
+def is_try_residual(c):
+    """the `?` operator's error-propagating call"""
+    return callee_decl(c) == "core::ops::try_trait::FromResidual::from_residual"
+
+
 def callee_is(c, *names):
     """does the callee (declared or resolved, generics stripped) equal one of the paths"""
     if c is None:
@@ -758,6 +770,11 @@ class Program:
                 if c is None:
                     continue
                 tgt = self.body_for_callee(c, b)
+                # function items / closures handed over as generic arguments may be called by the callee
+                for fa in c.get("fn_args") or []:
+                    fb = self.by_target[b.target].get(fa) or self.by_target["lib"].get(fa)
+                    if fb is not None and fb.kind != "closure":
+                        out.append((s, fb))
                 if tgt is not None:
                     out.append((s, tgt))
                 elif virtual_dispatch and c.get("virtual") and c.get("trait") in self.traits:
@@ -835,7 +852,8 @@ TRANSPARENT_CALLS = (
     "alloc::vec::Vec::as_slice",
     "alloc::vec::Vec::as_mut_slice",
     "core::iter::traits::collect::IntoIterator::into_iter",
-        "core::slice::iter",
+    "core::slice::iter",
+    "core::hint::must_use",
 )
 
 
